@@ -140,7 +140,7 @@ class Renderer:
     def selector(self, sel) -> str:
         k = sel[0]
         if k == "n":
-            if self.ext["bare_names"] and re.match(r"^[A-Za-z_][A-Za-z0-9_]*$", sel[1]) \
+            if self.ext["bare_names"] and re.match(r"^[A-Za-z][A-Za-z0-9_]*$", sel[1]) \
                     and sel[1] not in RESERVED and self.p(0.5):
                 self.features.add("bare-name")
                 return sel[1]
@@ -210,7 +210,8 @@ class Renderer:
             self.features.add("root-omitted")
             body0 = body.lstrip(" \t\n\r")
             if first[0] == "c" and len(first[1]) == 1 and first[1][0][0] == "n" \
-                    and body0.startswith(".") and self.p(0.5):
+                    and body0.startswith(".") and first[1][0][1] not in RESERVED \
+                    and not first[1][0][1].startswith("_") and self.p(0.5):
                 return body0[1:]
             return body0
         return root + body
